@@ -111,21 +111,24 @@ def minimise(mod, case, bucket, max_steps=400, max_seconds=90):
     t0 = time.time()
     steps = 0
     improved = True
+    last = None
     while improved:
         improved = False
         for cand in shrink(case):
             steps += 1
             if steps > max_steps or time.time() - t0 > max_seconds:
-                return case
+                return case, last
             try:
                 unknown, _ = run_filtered(mod, cand, Ctx(record=False))
             except Exception:
                 continue
-            if any(o["bucket"] == bucket for o in unknown):
+            hit = [o for o in unknown if o["bucket"] == bucket]
+            if hit:
                 case = cand
+                last = hit[0]
                 improved = True
                 break
-    return case
+    return case, last
 
 
 # --------------------------------------------------------------------------------------
@@ -185,8 +188,8 @@ def worker_main(args):
     # minimise candidates (bounded)
     out_c = []
     for bucket, (sz, case, o) in list(candidates.items())[:6]:
-        small = minimise(mod, case, bucket, max_seconds=budget.get("shrink_seconds", 60))
-        out_c.append({"bucket": bucket, "case": small, "detail": o.get("detail")})
+        small, o2 = minimise(mod, case, bucket, max_seconds=budget.get("shrink_seconds", 60))
+        out_c.append({"bucket": bucket, "case": small, "detail": (o2 or o).get("detail")})
     result.update(ctx.dump())
     result["candidates"] = out_c
     result["n_candidate_buckets"] = len(candidates)
